@@ -4,6 +4,7 @@
 set -u
 patch=$1; shift
 W=$(mktemp -d /tmp/mut.XXXXXX)
+H=$(printf '%s' "$(readlink -f "$W")" | sha1sum | cut -c1-10)
 git -C /repo worktree add -q --detach "$W" HEAD || exit 3
 if [ "$patch" != "-" ]; then git -C "$W" apply "$patch" || { git -C /repo worktree remove --force "$W"; exit 3; }; fi
 if [ -n "${MUT_CMD:-}" ]; then (cd "$W" && bash -c "$MUT_CMD") || { git -C /repo worktree remove --force "$W"; exit 3; }; fi
@@ -13,3 +14,4 @@ for p in "$@"; do
   echo "$p exit=${PIPESTATUS[0]}"
 done
 git -C /repo worktree remove --force "$W"
+rm -rf /verif/build/bin/*-scratch-$H /verif/build/mod-*-scratch-$H /verif/build/overlay-*-scratch-$H 2>/dev/null
